@@ -145,7 +145,13 @@ def bounds_oracle(ctx, s: str, out: str, where: str, desc: dict) -> None:
     u = cli_utils()
     m = u.bounds_re.match(s)
     fm = u.bounds_re.fullmatch(s)
-    prefix_cause = accepted and m is not None and (fm is None or fm.groups() != m.groups())
+    # the reading is the one a *prefix* match of the live pattern gives, and differs from the full match
+    prefix_cause = False
+    if accepted and m is not None and reads_differ(m, fm):
+        try:
+            prefix_cause = out == ring_of([float(g) for g in m.groups()])
+        except ValueError:
+            prefix_cause = False
     if verdict == 'reject':
         if accepted:
             sig = 'bounds-prefix-match' if prefix_cause else 'bounds-grammar-accepts-junk'
@@ -715,12 +721,22 @@ def eval_cmd(ctx, case: dict, work: pathlib.Path):
         shutil.rmtree(d, ignore_errors=True)
 
 
+def reads_differ(m, fm) -> bool:
+    """prefix match `m` and full match `fm` of the live pattern give different numbers (or there is no full match)"""
+    if fm is None:
+        return True
+    try:
+        return [float(g) for g in m.groups()] != [float(g) for g in fm.groups()]
+    except ValueError:
+        return True
+
+
 def prefix_misread(text: str) -> bool:
     """is the real geometry_argument's reading of this bounds text the one a prefix match of the live regular
     expression gives, and different from the full match?"""
     u = cli_utils()
     m, fm = u.bounds_re.match(text), u.bounds_re.fullmatch(text)
-    if m is None or (fm is not None and fm.groups() == m.groups()):
+    if m is None or not reads_differ(m, fm):
         return False
     try:
         got = u.geometry_argument(text)
